@@ -91,6 +91,15 @@ def with_motif(draw, W):
         obs = _blank(free[3], s, refs=sorted(order), repeat=5)
         obs["refs"] = [{"p": p, "abs": True, "method": "ref", "path": None} for p in order]
         comps.append(obs)
+        how = draw(st.sampled_from(["plain", "plain", "fast-fails", "fast-shuts-down"]))
+        if how != "plain":
+            # the fast subject exits badly at once and the controller learns about it one or two passes late: when the
+            # late subject finally starts, the observer's other subject is already FAILED / SHUTDOWN
+            reason = draw(st.sampled_from(["KnownIssue", "SystemIssue", "UnknownIssue"]))
+            if how == "fast-shuts-down":
+                comps[n0 + 2]["shutdownOn"] = [reason]
+            comps[n0 + 2]["restartHookOn"] = []
+            W["hint"] = {"component": n0 + 2, "reason": reason, "late": draw(st.integers(1, 2))}
     return W
 
 
@@ -134,7 +143,21 @@ def runtime_cases(draw, max_components=5, max_stages=3, fail_rate=6):
         cand = [r for r in sorted(nodes) if not nodes[r]["repeat"] and r not in script]
         if cand:
             memo = draw(st.lists(st.sampled_from(cand), min_size=1, max_size=2, unique=True))
-    return {"W": W, "script": script, "memo": sorted(memo)}
+    # a quarter of the cases: the controller learns late (1-2 scheduler passes) that some node finished - preferably a
+    # node with a scripted bad exit - while the node's own state is already final
+    late = {}
+    if draw(st.integers(0, 3)) == 0:
+        cand = [r for r in sorted(nodes) if not nodes[r]["repeat"]]
+        bad = [r for r in cand if r in script]
+        pool = (bad * 3 + cand) if bad else cand
+        if pool:
+            for r in draw(st.lists(st.sampled_from(pool), min_size=1, max_size=2, unique=True)):
+                late[r] = draw(st.integers(1, 2))
+    if hint is not None and hint.get("late"):
+        for ref in sorted(nodes):
+            if nodes[ref]["idx"] == hint["component"]:
+                late[ref] = hint["late"]
+    return {"W": W, "script": script, "memo": sorted(memo), "late": late}
 
 
 # ----------------------------------------------------------------------------------------------------------
@@ -239,7 +262,7 @@ class LaunchMonitor:
                     self.violations.append(("observer-launched-before-subject-launched",
                                             "%s (repeating) launched while same-stage producer %s was neither launched "
                                             "nor final (state %s)" % (ref, p, st_p)))
-                continue
+                continue        # (a failed subject is judged where the controller starts the observer: on_component_run)
             if st_p not in FINAL:
                 self.violations.append(("launched-before-producer-final",
                                         "%s launched (execution %d) while producer %s is '%s'" % (ref, n, p, st_p)))
@@ -272,6 +295,9 @@ class LaunchMonitor:
                     self.violations.append(("observer-started-before-subject-started",
                                             "%s (repeating) was started while same-stage producer %s had not been "
                                             "started and is '%s'" % (ref, p, st_p)))
+                if st_p == FAILED:
+                    self.violations.append(("started-with-failed-producer",
+                                            "%s (repeating) started although producer %s FAILED" % (ref, p)))
                 continue
             if st_p not in FINAL:
                 self.violations.append(("started-before-producer-final",
@@ -306,7 +332,8 @@ def run_case(case, ctx: Ctx, chooser: Chooser, max_decisions=6000):
         check_graph_matches_model(exp, W)
         mon = LaunchMonitor(W)
         drv = driver.Driver(exp, chooser, case["script"], on_launch=mon, max_decisions=max_decisions,
-                            on_component_run=mon.on_component_run, memoized=case.get("memo", ()))
+                            on_component_run=mon.on_component_run, memoized=case.get("memo", ()),
+                            delay_finished=case.get("late"))
         res = drv.run()
         return res, mon
     finally:
